@@ -94,7 +94,7 @@ def _eval_flag(elt: ast.AST, atom_true: bool, loopvar: str) -> Optional[object]:
     return None
 
 
-def polarity_rule(program, res, rule="C18-S2", windows=False):
+def polarity_rule(program, res, rule="C18-S2", windows=False, backends=("pandas", "polars", "sql")):
     """(function, how the flag reaches the sort) per back end"""
     sites = []
     pb = program.cls("pandas_base", "PandasModelBase")
@@ -105,6 +105,7 @@ def polarity_rule(program, res, rule="C18-S2", windows=False):
     if windows:
         targets = [(pb.methods["_extend_step"], "ascending", False), (pm.methods["_extend_step"], "descending", True),
                    (sm.methods["extend_to_near_sql"], " DESC", " DESC")]
+    targets = [t for t, be in zip(targets, ("pandas", "polars", "sql")) if be in backends]
     for (m, flagname, want_when_reversed) in targets:
         res.analysed(m)
         found = False
